@@ -144,6 +144,12 @@ impl MemcacheBinaryConnection {
             }
 
             bytes_counter += bytes_read;
+            #[cfg(memcrs_verif)]
+            crate::verif::note(
+                "conn.skip",
+                None,
+                [self.verif_peer_port(), bytes_read as u64, bytes as u64, 0],
+            );
             let difference = bytes as usize - bytes_counter;
             debug!(
                 "Bytes read: {:?} {:?} {:?}",
